@@ -1,48 +1,61 @@
-// throw-away: investigate the C12 replay (altered byte in a checksummed page, Ok(true), savepoint gone)
+// throw-away: investigate the C12 thorough replay (slot flag flipped + aborted repair => Ok(true), no tables)
 use redb::*;
 use vcore::backend::RecBackend;
 use vcore::decoder::*;
 use vcore::hist::*;
 use vcore::tape::Tape;
+fn show(tag: &str, img: &[u8]) {
+    let src = ImageSource::new(img).unwrap();
+    let h = &src.header;
+    println!("{tag}: len {} god byte {:#04x} primary {} recovery_required {} ", img.len(), img[9], h.primary, h.recovery_required);
+    for (i, s) in h.slots.iter().enumerate() {
+        println!("   slot {i}: checksum_ok {} txn {} user_root {:?} system_root {:?} flagbytes {:?}", s.checksum_ok, s.transaction_id, s.user_root.map(|r| r.page), s.system_root.map(|r| r.page), &img[64 + i * 128..64 + i * 128 + 4]);
+    }
+}
 fn main() {
     let path = std::env::args().nth(1).unwrap();
     let v: serde_json::Value = serde_json::from_str(&std::fs::read_to_string(path).unwrap()).unwrap();
     let tape = Tape::from_hex(v["tape"].as_str().unwrap()).unwrap();
-    let off: usize = std::env::args().nth(2).unwrap().parse().unwrap();
-    let mask: u8 = std::env::args().nth(3).unwrap().parse().unwrap();
     let cfg = decode_cfg(&tape);
     let mut p = Profile::base();
-    // same profile as c12
     p.w_commit = 30; p.w_begin = 12; p.nondurable = 40; p.w_sp_pers = 5; p.w_sp_eph = 0; p.w_restore = 2; p.w_del_pers = 2; p.w_delete_table = 3; p.w_reopen = 2; p.w_compact = 1; p.w_check = 0; p.w_begin_read = 0; p.w_reader_probe = 0; p.w_take_owned = 0; p.w_owned_step = 0; p.w_hold = 0; p.mismatch = 0; p.key_universe = 48; p.verify_each_commit = false;
     let mut m = Machine::new(cfg.clone(), p, false, false).map_err(|_| "new").unwrap();
     m.run_tape(&tape).map_err(|_| "run").unwrap();
     m.drop_all_handles();
-    let db = m.db.take(); drop(db);
-    let img = m.backend.image();
-    let src = ImageSource::new(&img).unwrap();
-    let h = &src.header;
-    let slot = &h.slots[h.primary];
-    let forest = decode_forest(&src, slot.user_root, slot.system_root, true).unwrap();
-    println!("page size {} primary {} savepoints {:?}", h.page_size, h.primary, forest.savepoints.keys().collect::<Vec<_>>());
-    for (k, cov) in &forest.covered {
-        let (s, e) = h.page_range(*k);
-        if (s as usize) <= off && off < e as usize {
-            println!("offset {off} lies in page {k:?} range {s}..{e} covered {cov} (offset in page {}), data page: {} system page: {}", off - s as usize, forest.data_pages.contains(k), forest.system_pages.contains(k));
+    let img = m.backend.image(); // unclean: database still open
+    show("crash image", &img);
+    let mut alt = img.clone();
+    alt[65] ^= 1;
+    show("altered", &alt);
+    // interrupted open
+    let b = RecBackend::from_image(alt.clone(), true);
+    let mut builder = cfg.builder();
+    builder.set_repair_callback(|s| s.abort());
+    let r = builder.create_with_backend(b.clone());
+    println!("first open: {:?}", r.as_ref().map(|_| "ok").map_err(|e| format!("{e:?}")));
+    drop(r);
+    let after = b.image();
+    show("after aborted repair", &after);
+    {
+        let g = b.lock();
+        for op in g.log.iter() {
+            match op { vcore::backend::LogOp::Write { off, data } => println!("   write off {off} len {}", data.len()), vcore::backend::LogOp::Read => {}, o => println!("   {:?}", std::mem::discriminant(o)) }
         }
     }
-    for (n, t) in &forest.system { println!("system table {n:?}: pages {:?}", t.pages.iter().take(6).collect::<Vec<_>>()); }
-    let mut alt = img.clone();
-    alt[off] ^= mask;
-    let b = RecBackend::from_image(alt, false);
-    let mut db = cfg.builder().create_with_backend(b).unwrap();
+    let b2 = RecBackend::from_image(after, false);
+    let mut db = cfg.builder().create_with_backend(b2.clone()).unwrap();
     println!("check_integrity: {:?}", db.check_integrity());
-    let w = db.begin_write().unwrap();
-    println!("list_persistent_savepoints: {:?}", w.list_persistent_savepoints().map(|i| i.collect::<Vec<_>>()));
-    println!("get_persistent_savepoint(1): {:?}", w.get_persistent_savepoint(1).map(|_| "ok"));
-    w.abort().unwrap();
-    // unaltered for comparison
-    let b = RecBackend::from_image(img, false);
-    let db = cfg.builder().create_with_backend(b).unwrap();
-    let w = db.begin_write().unwrap();
-    println!("unaltered list_persistent_savepoints: {:?}", w.list_persistent_savepoints().map(|i| i.collect::<Vec<_>>()));
+    let rt = db.begin_read().unwrap();
+    println!("tables: {:?} multimaps: {:?}", rt.list_tables().unwrap().map(|h| h.name().to_string()).collect::<Vec<_>>(), rt.list_multimap_tables().unwrap().map(|h| h.name().to_string()).collect::<Vec<_>>());
+    drop(rt);
+    { let w = db.begin_write().unwrap(); println!("psp: {:?}", w.list_persistent_savepoints().unwrap().collect::<Vec<_>>()); w.abort().unwrap(); }
+    for (j, c) in m.commits.iter().enumerate() { println!("  model S{j}: tables {:?} psp {:?}", c.tables.keys().collect::<Vec<_>>(), c.psp.keys().collect::<Vec<_>>()); }
+    drop(db);
+    show("after second open+check+close", &b2.image());
+    // without the interrupted open
+    let b3 = RecBackend::from_image(alt, false);
+    let mut db = cfg.builder().create_with_backend(b3).unwrap();
+    println!("direct: check_integrity: {:?}", db.check_integrity());
+    let rt = db.begin_read().unwrap();
+    println!("direct: tables: {:?}", rt.list_tables().unwrap().map(|h| h.name().to_string()).collect::<Vec<_>>());
 }
